@@ -156,6 +156,24 @@ def lean_files_under(*rel):
     return sorted(res)
 
 
+def import_closure(modules):
+    """source files of the project-local modules the given modules (transitively) import"""
+    seen, todo, files = set(), list(modules), []
+    while todo:
+        m = todo.pop()
+        if m in seen:
+            continue
+        seen.add(m)
+        path = os.path.join(LEAN, *m.split(".")) + ".lean"
+        if not os.path.exists(path):
+            continue
+        files.append(path)
+        for im in re.findall(r"^\s*import\s+(\S+)", strip_comments(open(path).read()), re.M):
+            if im.startswith("BumpProof") or im.startswith("Driver"):
+                todo.append(im)
+    return files
+
+
 def audit_tokens(ctx, files):
     bad = []
     for f in files:
@@ -227,9 +245,8 @@ def prove(ctx, prop_modules, extra_token_dirs=()):
             ok_all = False
         else:
             theorems += ths
-    files = lean_files_under("BumpProof/Props", "BumpProof/Lemmas", "BumpProof/Spec", "BumpProof/Rs.lean",
-                             "BumpProof/Gen", *extra_token_dirs)
-    ok_all &= audit_tokens(ctx, files)
+    files = import_closure(prop_modules) + lean_files_under(*extra_token_dirs)
+    ok_all &= audit_tokens(ctx, sorted(set(files)))
     built = [m for m in prop_modules if not any(e["module"] == m for e in ctx.extra.get("lean_errors", []))]
     if theorems:
         ok_all &= audit_axioms(ctx, built, theorems)
